@@ -256,6 +256,25 @@ type response struct {
 func (w *response) Write(b []byte) (int, error) {
 	w.mu.Lock()
 	defer w.mu.Unlock()
+	return w.write(b)
+}
+
+// writeRetry writes b like Write and, after a temporary error, goes on
+// with the bytes that are still to be sent, at most retries times. The
+// connection is not released to other writers between the attempts, so
+// the message reaches the transport in one piece.
+func (w *response) writeRetry(b []byte, retries uint) (int, error) {
+	w.mu.Lock()
+	defer w.mu.Unlock()
+	return writeRetry(writerFunc(w.write), b, retries)
+}
+
+type writerFunc func([]byte) (int, error)
+
+func (f writerFunc) Write(b []byte) (int, error) { return f(b) }
+
+// write is Write for callers that hold w.mu.
+func (w *response) write(b []byte) (int, error) {
 	if w.conn.server.WriteTimeout > 0 {
 		w.conn.rwc.SetWriteDeadline(time.Now().Add(w.conn.server.WriteTimeout))
 	}
